@@ -13,8 +13,8 @@ pub fn def() -> PropDef {
         name: "aggregator",
         cfg_len: 0,
         tape_max: 220,
-        quick: 40_000,
-        thorough: 3_000_000,
+        quick: 120_000,
+        thorough: 5_000_000,
         max_shrink_iters: 1500,
         run: run_aggregator,
     }];
